@@ -37,7 +37,7 @@ TOKEN_RE = re.compile(r"""
   | (?P<char>'(?:[^'\\]|\\.)')
   | (?P<lifetime>'[A-Za-z_]\w*)
   | (?P<ident>[A-Za-z_]\w*)
-  | (?P<punct>::|->|=>|==|!=|<=|>=|&&|\|\||\+=|-=|\*=|/=|\.\.=|\.\.|<<|>>|[-+*/%=<>!&|^.,;:(){}\[\]#?@])
+  | (?P<punct>::|->|=>|==|!=|<=|>=|&&|\|\||\+=|-=|\*=|/=|\.\.=|\.\.|[-+*/%=<>!&|^.,;:(){}\[\]#?@])
 """, re.X | re.S)
 
 
@@ -129,6 +129,17 @@ class Parser:
                 self.expr()
             self.expect("]")
             return ("slice", inner)
+        if self.at("fn") and self.peek().text == "(":
+            self.i += 1
+            self.expect("(")
+            while not self.at(")"):
+                self.ty()
+                if not self.eat(","):
+                    break
+            self.expect(")")
+            if self.eat("->"):
+                self.ty()
+            return ("fnptr",)
         name = self.ident()
         while self.eat("::"):
             name = self.ident()
@@ -1167,6 +1178,149 @@ MODULES = {
 }
 
 
+# ------------------------------------------------------------------ Storable schemas (C16)
+
+SCHEMA_STRUCTS = [
+    # (file, rust struct name, lean name)
+    ("src/chain.rs", "NutsStats", "NutsStats"),
+    ("src/mclmc.rs", "MclmcStats", "MclmcStats"),
+    ("src/dynamics/hamiltonian.rs", "DivergenceStats", "DivergenceStats"),
+    ("src/dynamics/transformed_hamiltonian.rs", "PointStats", "PointStats"),
+    ("src/dynamics/transformed_hamiltonian.rs", "HamiltonianStats", "HamiltonianStats"),
+    ("src/transform/diagonal.rs", "DiagMassMatrixStats", "DiagMassMatrixStats"),
+    ("src/transform/low_rank.rs", "MatrixStats", "LowRankMatrixStats"),
+    ("src/transform/external.rs", "ExternalTransformationStats", "ExternalTransformationStats"),
+    ("src/transform/adapt/diagonal.rs", "Stats", "DiagAdaptStats"),
+    ("src/external_adapt_strategy.rs", "Stats", "ExternalAdaptStats"),
+    ("src/adapt_strategy.rs", "GlobalStrategyStats", "GlobalStrategyStats"),
+    ("src/stepsize/adapt.rs", "Stats", "StepSizeStats"),
+]
+
+BASIC_TYPES = {"u64": "u64", "i64": "i64", "f64": "f64", "f32": "f32", "bool": "bool", "String": "string"}
+
+
+def ty_to_str(ty):
+    if ty[0] == "path":
+        if ty[2]:
+            return ty[1] + "<" + ",".join(ty_to_str(a) for a in ty[2]) + ">"
+        return ty[1]
+    return str(ty)
+
+
+def struct_generics(rf, name):
+    m = re.search(r"\bstruct\s+%s\b\s*(<[^{]*?>)?\s*(where[^{]*)?\{" % re.escape(name), rf.src)
+    if not m or not m.group(1):
+        return []
+    inner = m.group(1)[1:-1]
+    params = []
+    depth = 0
+    cur = ""
+    for ch in inner:
+        if ch in "<(":
+            depth += 1
+        if ch in ">)":
+            depth -= 1
+        if ch == "," and depth == 0:
+            params.append(cur)
+            cur = ""
+        else:
+            cur += ch
+    if cur.strip():
+        params.append(cur)
+    out = []
+    for prm in params:
+        nm = prm.split(":")[0].strip()
+        storable = bool(re.search(r":\s*[^,]*\bStorable\b", prm))
+        out.append((nm, storable))
+    return out
+
+
+def gen_schema(repo, out_path):
+    files = {}
+    lines = ["/- GENERATED by tools/rs2lean.py from the #[derive(Storable)] structs of /repo -- do not edit. -/",
+             "import NutsModel.Model.StatsSchema", "", "namespace NutsModel.Gen.Schema", "open NutsModel.Model", ""]
+    names = []
+    for (rel, sname, lname_) in SCHEMA_STRUCTS:
+        if rel not in files:
+            files[rel] = RustFile(os.path.join(repo, rel))
+        rf = files[rel]
+        attrs, body, line = rf.struct_decl(sname)
+        if not any("Storable" in a for a in attrs):
+            raise Untranslatable(f"{rel}:{line}: struct {sname} does not derive Storable")
+        generics = struct_generics(rf, sname)
+        fields = parse_struct_fields(body, rel, line)
+        fl = []
+        for (fname, fty, fattrs) in fields:
+            st = [a for a in fattrs if a.startswith("storable")]
+            mode = "item"
+            dims = []
+            event = None
+            if st:
+                a = st[0]
+                if re.search(r"\bignore\b", a):
+                    continue
+                if re.search(r"\bflatten\b", a):
+                    mode = "flatten"
+                dm = re.search(r"dims \( ([^)]*) \)", a)
+                if dm:
+                    dims = re.findall(r'"([^"]*)"', dm.group(1))
+                em = re.search(r'event = "([^"]*)"', a)
+                if em:
+                    event = em.group(1)
+            t = ty_to_str(fty)
+            is_opt = False
+            core = t
+            m = re.fullmatch(r"Option<(.*)>", t)
+            if m:
+                is_opt = True
+                core = m.group(1)
+            gen_names = [g[0] for g in generics]
+            if mode == "flatten":
+                if core in gen_names:
+                    fl.append(f'.param "{core}" {str(is_opt).lower()}')
+                else:
+                    fl.append(f'.inner "{core.split("<")[0]}" {str(is_opt).lower()}')
+                continue
+            if core in gen_names and dict(generics)[core]:
+                if is_opt:
+                    raise Untranslatable(f"{rel}:{line}: Option<generic> Storable field {fname} (ItemType::Generic) outside subset")
+                fl.append(f'.param "{core}" false')
+                continue
+            is_vec = False
+            m = re.fullmatch(r"Vec<(.*)>", core)
+            if m:
+                is_vec = True
+                core2 = m.group(1)
+            else:
+                core2 = core
+            if core2 in BASIC_TYPES and not (is_vec and core2 == "String"):
+                ds = "[" + ", ".join(f'"{d}"' for d in dims) + "]"
+                ev = f'(some "{event}")' if event else "none"
+                fl.append(f'.basic {{ name := "{fname}", ty := .{BASIC_TYPES[core2]}, isVec := {str(is_vec).lower()}, '
+                          f'isOption := {str(is_opt).lower()}, dims := {ds}, event := {ev} }}')
+            else:
+                if is_opt or is_vec:
+                    raise Untranslatable(f"{rel}:{line}: field {fname}: {t} outside the derive macro's type table")
+                fl.append(f'.inner "{core.split("<")[0]}" false')
+        plist = "[" + ", ".join(f'"{g[0]}"' for g in generics if g[1]) + "]"
+        lines.append(f"/-- `{rel}:{line}` struct {sname} -/")
+        lines.append(f"def {lname_} : StructSchema :=")
+        lines.append(f'  {{ name := "{lname_}", rustName := "{sname}", params := {plist}, fields := [')
+        lines.append(",\n".join("      " + f for f in fl))
+        lines.append("    ] }")
+        lines.append("")
+        names.append(lname_)
+    lines.append("def all : List StructSchema := [" + ", ".join(names) + "]")
+    lines.append("")
+    lines.append("end NutsModel.Gen.Schema")
+    text = "\n".join(lines) + "\n"
+    os.makedirs(os.path.dirname(out_path), exist_ok=True)
+    old = open(out_path).read() if os.path.exists(out_path) else None
+    if old != text:
+        open(out_path, "w").write(text)
+    return text
+
+
 def main(argv):
     import argparse
     ap = argparse.ArgumentParser()
@@ -1174,10 +1328,14 @@ def main(argv):
     ap.add_argument("--out", default=os.path.join(os.path.dirname(os.path.abspath(__file__)), "..", "lean", "NutsModel", "Gen"))
     ap.add_argument("modules", nargs="*")
     a = ap.parse_args(argv)
-    mods = a.modules or list(MODULES)
+    mods = a.modules or (list(MODULES) + ["Schema"])
     rc = 0
     for m in mods:
         try:
+            if m == "Schema":
+                gen_schema(a.repo, os.path.join(a.out, "Schema.lean"))
+                print("rs2lean: generated Gen/Schema.lean")
+                continue
             gen_module(a.repo, MODULES[m], os.path.join(a.out, m + ".lean"), HEADER)
             print(f"rs2lean: generated Gen/{m}.lean")
         except Untranslatable as e:
